@@ -37,6 +37,8 @@ func FmtDiffs(input string) ([]FmtDiff, error) {
 		return nil, err
 	}
 
+	all = mergeSharedLines(all)
+
 	lines := &lineSet{
 		lines: strings.Split(input, "\n"),
 	}
@@ -70,6 +72,24 @@ func FmtDiffs(input string) ([]FmtDiff, error) {
 		lastEnd = diff.ToLine
 	}
 	return out, nil
+}
+
+// mergeSharedLines joins fragments which start on a source line that the
+// previous fragment already covers (two statements on one line) into a single
+// fragment, so that the resulting edits never overlap.
+func mergeSharedLines(all []FmtDiff) []FmtDiff {
+	merged := make([]FmtDiff, 0, len(all))
+	for _, diff := range all {
+		if n := len(merged); n > 0 && diff.FromLine < merged[n-1].ToLine {
+			merged[n-1].NewText += diff.NewText
+			if diff.ToLine > merged[n-1].ToLine {
+				merged[n-1].ToLine = diff.ToLine
+			}
+			continue
+		}
+		merged = append(merged, diff)
+	}
+	return merged
 }
 
 type lineSet struct {
